@@ -56,6 +56,7 @@ func c11(p *core.Program, r *core.Report) {
 	})
 	footprintRule(p, r, "segment-coverage", [][2]string{{"xy/internal/raycrossing", "LocatePointInRing"}, {"xy", "IsOnLine"}})
 
+	crossingConventionRule(p, r, "crossing-convention")
 	const r3 = "location-values"
 	r.Rule(r3, "getLocation returns only the constants Interior, Boundary, Exterior (Boundary exactly when isPointOnSegment); raycrossing.LocatePointInRing returns only getLocation(); xy.LocatePointInRing is a pure delegation; xy.IsPointInRing is `LocatePointInRing(...) != location.Exterior`", 4)
 	locPkg := p.Pkg("xy/location")
@@ -298,6 +299,7 @@ func c13(p *core.Program, r *core.Report) {
 		{"xy/internal", "(*CoordStack).Peek", "all"},
 	})
 
+	grahamPreconditionRule(p, r, "graham-scan-precondition")
 	const r4 = "fresh-arrays-fully-written"
 	r.Rule(r4, "every non-empty make([]float64, n) in the hull code is completely overwritten from input coordinates before use: it is the target of a store indexed by an element counter bounded by its own length, or by base+k with a stride-stepped loop covering [0, len) - zero-initialised slots must never be read as coordinates (they would add the point (0,0) to the hull)", 2)
 	all := strideInfo(p)
@@ -401,6 +403,7 @@ func c14(p *core.Program, r *core.Report) {
 		{"xy", "SignedArea"}, {"xy", "MultiPointCentroid"}, {"xy", "PointsCentroidFlat"},
 	})
 
+	zeroAreaFallbackRule(p, r, "zero-area-fallback-exact")
 	const r3 = "shell-hole-polarity"
 	r.Rule(r3, "addShell and addHole pass logically opposite values of the same predicate IsRingCounterClockwise(calc.layout, pts) to addTriangle (shell: negated, hole: plain), so holes subtract what shells add whatever the ring directions", 2)
 	pol := func(name string) (neg bool, ok bool) {
@@ -536,5 +539,6 @@ func c20(p *core.Program, r *core.Report) {
 	}
 	strideRule(p, r, "stride-discipline", []strideTarget{{"xy", "dpWorker", "all"}, {"xy", "distanceFromSegmentSquared", "xy"}, {"xy", "SimplifyFlatCoords", "all"}})
 	clampedProjectionRule(p, r, "segment-distance-clamped", [][2]string{{"xy", "distanceFromSegmentSquared"}})
+	rdpScanRule(p, r, "candidate-scan-exhaustive")
 	r.Assume("the threshold bound on omitted points and idempotence depend on runtime numbers and are not decided beyond the clamp structure of the distance kernel")
 }
